@@ -306,6 +306,10 @@ func (s *Session) Violation(tag string, c any, msg string) string {
 	doc, _ := json.MarshalIndent(replayDoc{Property: s.ID, Tag: tag, Message: msg, Case: raw}, "", " ")
 	_ = os.MkdirAll(s.ReplayDir, 0o755)
 	name := fmt.Sprintf("%s-%s-seed%d-shard%d.json", s.ID, tag, s.Seed, s.Shard)
+	if os.Getenv("VERIF_FUZZ") != "" {
+		// native fuzzing: several worker processes share the environment
+		name = fmt.Sprintf("%s-%s-fuzz-pid%d.json", s.ID, tag, os.Getpid())
+	}
 	path := filepath.Join(s.ReplayDir, name)
 	if s.ReplayIn != "" {
 		path = s.ReplayIn
